@@ -91,6 +91,13 @@ func runHook(executeable, store string) {
 }
 
 func (h *HooksCaller) runAllHooks() {
+	// a reload announces the new store directory before any notification for a change in it is sent, but
+	// select may well pick the notification first - don't call the hooks with the directory of the old store
+	select {
+	case s := <-h.NewStore:
+		h.store = s
+	default:
+	}
 	verifEvent("hooks.run", h.store, h.pending)
 	dir, err := os.Open(h.dir)
 	if err != nil {
